@@ -166,6 +166,16 @@ def run(p, led, tier):
                         edges.add((a, b))
             bad = sorted(e for e in edges if not legal(m.name, *e))
             key = f"Telomere.{m.name} ▸ from {start}"
+            # becoming ACTIVE for the first time is *starting*: the clocks the time limits are measured from must be set on that path
+            unstarted = []
+            for _, r in paths:
+                went_active = any(ev[2] == PH and getattr(ev[3], "name", None) == "NASCENT" and getattr(ev[4], "name", None) == "ACTIVE" for ev in r["writes"])
+                if went_active and not any(ev[2] == STARTED and ev[4] is not None for ev in r["writes"]):
+                    unstarted.append(r)
+            if unstarted:
+                led.fail("C09-R2", key + " ▸ NASCENT→ACTIVE starts the clocks", where(m, m.node),
+                         f"{len(unstarted)} path(s) move a never-started lifecycle to ACTIVE without setting `{STARTED}`: the lifetime / idle limits are never enforced for it",
+                         witness="Telomere(max_lifetime_hours=1).renew() before start(): ACTIVE with no start time; check_timeouts() never forces senescence")
             inv_broken = [r for _, r in paths if r["final"] in ("NASCENT", "ACTIVE") and not r["reason_none"] and not r["raised"]]
             if inv_broken:
                 led.fail("C09-R2", key + " ▸ state invariant", where(m, m.node),
